@@ -12,8 +12,11 @@
     dsrmath.atomic_distance (cell given, no shortest_dist)   -> `atomicDistSq`, `atomicDistance`
     CELL.astar/bstar/cstar, CELL.N                           -> `recip`, `nMat`
     Atom.ucif / ustar / u_cart / set_ueq                     -> `ucif`, `ustar`, `ucart`, `ueqAniso`, `isoBranch`
-    Atom.is_npd (leading minors of u_cart)                   -> `npdMinors`
-        (all as repaired by fixes/C12_1, C12_2, C12_3; the code as it was: `ustarOld`, `ucartOld`, `isoBranchOld`,
+    Atom.is_npd (all seven principal minors of u_cart)       -> `principalMinors` (fixes/C12_5; C12_3 had the three
+                                                                leading ones: `npdMinors`)
+    the parsed Atom object under edits (atom.uvals = …, atom.uvals[k] = …, set_uvals, to_isotropic,
+      atom.frac_coords = … (fixes/C12_4), Shelxfile.add_atom)  -> `AtomSt`, `Edit`, `applyEdit`, `history`, `parseAtom`, `newAtom`
+        (all as repaired by fixes/C12_1 … C12_5; the code as it was: `ustarOld`, `ucartOld`, `isoBranchOld`,
          and for is_npd the 100 unshifted QR steps of misc.qr_decomposition / misc.eigenvals: `qrDecomp`, `eigenvals`)
   `math.cos/sin` VALUES enter as fields of `Cell` (`ca … sg`), `math.sqrt` as a function parameter; the proof
   file states their algebraic relations as hypotheses.
@@ -189,10 +192,81 @@ def ueqAniso (sqrt : K → K) (c : Cell K) (u : U6 K) : K :=
 def ueqAnisoOld (sqrt : K → K) (c : Cell K) (u : U6 K) : K :=
   trace (ucartOld (orthoM sqrt c) (nMat sqrt c) (ucif u)) / 3
 
-/-- repaired `Atom.is_npd`: the three leading principal minors of `u_cart.values` as coded
+/-- `Atom.is_npd` after fixes/C12_3: the three leading principal minors of `u_cart.values` as coded
     (`u[0][0]`, `u[0][0]*u[1][1] - u[0][1]*u[1][0]`, `misc.determinante(u)`); the atom is reported
     non-positive-definite unless all three are `> 0` -/
 def npdMinors (m : M3 K) : V3 K := ⟨m.r0.x, m.r0.x * m.r1.y - m.r0.y * m.r1.x, det m⟩
+
+/-- `Atom.is_npd` as it is now (fixes/C12_5): all seven principal minors of `u_cart.values`, in the order coded
+    (`u00, u11, u22, u00*u11 - u01*u10, u00*u22 - u02*u20, u11*u22 - u12*u21, determinante(u)`); the atom is
+    reported non-positive-definite unless all are `> 0` -/
+def principalMinors (m : M3 K) : List K :=
+  [m.r0.x, m.r1.y, m.r2.z,
+   m.r0.x * m.r1.y - m.r0.y * m.r1.x,
+   m.r0.x * m.r2.z - m.r0.z * m.r2.x,
+   m.r1.y * m.r2.z - m.r1.z * m.r2.y,
+   det m]
+
+/-! ### the Atom object under edits: which fields every public edit writes, which fields the observables read -/
+
+/-- the fields of an `Atom` the observables of this property read or cache -/
+structure AtomSt (K : Type) where
+  frac : V3 K      -- x, y, z            (read by `frac_coords`, `atomic_distance`)
+  cart : V3 K      -- xc, yc, zc         (a cache; read by `cart_coords`, `Atoms.distance/angle/torsion`)
+  uvals : U6 K     -- the list `uvals`   (read by `ucif` → `ustar`, `u_cart`, `ueq`, `is_npd`, and by `__str__`)
+  uattr : U6 K     -- U11 … U12          (copies written by `set_uvals` / `set_atom_parameters`; read by no observable)
+
+/-- the public ways to change an atom's displacement parameters or position
+    (`to_isotropic()` is `assignUvals [0.04, 0, 0, 0, 0, 0]`) -/
+inductive Edit (K : Type) where
+  | assignUvals (u : U6 K)          -- atom.uvals = [...]
+  | setUvals (u : U6 K)             -- atom.set_uvals([...])   (values below 4: no free-variable code)
+  | setItem (k : Nat) (v : K)       -- atom.uvals[k] = v       (k < 6; larger k is Python's IndexError: no change)
+  | setFrac (p : V3 K)              -- atom.frac_coords = [...]
+
+def U6.set (u : U6 K) (k : Nat) (v : K) : U6 K :=
+  match k with
+  | 0 => { u with u11 := v }
+  | 1 => { u with u22 := v }
+  | 2 => { u with u33 := v }
+  | 3 => { u with u23 := v }
+  | 4 => { u with u13 := v }
+  | 5 => { u with u12 := v }
+  | _ => u
+
+/-- `Atom.parse_line`: `xc, yc, zc = cell.o * Array(frac_coords)` -/
+def parseAtom (m : M3 K) (p : V3 K) (u : U6 K) : AtomSt K := ⟨p, mulVec m p, u, u⟩
+
+/-- `Shelxfile.add_atom` → `Atom.set_atom_parameters`: `xc, yc, zc = misc.frac_to_cart(frac_coords, cell)` -/
+def newAtom (sqrt : K → K) (c : Cell K) (p : V3 K) (u : U6 K) : AtomSt K := ⟨p, fracToCartMisc sqrt c p, u, u⟩
+
+/-- one edit on the object (setter of `frac_coords` as repaired: it refreshes the Cartesian cache) -/
+def applyEdit (m : M3 K) (s : AtomSt K) : Edit K → AtomSt K
+  | .assignUvals u => { s with uvals := u }
+  | .setUvals u => { s with uvals := u, uattr := u }
+  | .setItem k v => { s with uvals := s.uvals.set k v }
+  | .setFrac p => { s with frac := p, cart := mulVec m p }
+
+/-- the setter before fixes/C12_4: `self.x, self.y, self.z = coords` only -/
+def applyEditOld (m : M3 K) (s : AtomSt K) : Edit K → AtomSt K
+  | .setFrac p => { s with frac := p }
+  | e => applyEdit m s e
+
+def history (m : M3 K) (s : AtomSt K) (es : List (Edit K)) : AtomSt K := es.foldl (applyEdit m) s
+def historyOld (m : M3 K) (s : AtomSt K) (es : List (Edit K)) : AtomSt K := es.foldl (applyEditOld m) s
+
+/-- what the same history means, without any object: the last assigned position, the U values after all edits -/
+def specFrac (p : V3 K) : List (Edit K) → V3 K
+  | [] => p
+  | .setFrac q :: es => specFrac q es
+  | _ :: es => specFrac p es
+
+def specUvals (u : U6 K) : List (Edit K) → U6 K
+  | [] => u
+  | .assignUvals v :: es => specUvals v es
+  | .setUvals v :: es => specUvals v es
+  | .setItem k v :: es => specUvals (u.set k v) es
+  | .setFrac _ :: es => specUvals u es
 
 /-! ### `misc.qr_decomposition`, `misc.eigenvals` (unshifted QR iteration, Gram–Schmidt as coded):
     what `Atom.is_npd` used before the repair -/
